@@ -32,6 +32,7 @@ VARIABLES tid, l,
 T == Traces[tid]
 \* constants of Safelink that its actions do not use
 NUp == 0
+MaxRestarts == 0
 NDown == 0
 Retries == 0
 NegAttempts == 0
@@ -84,6 +85,7 @@ MTx ==
            hn == [mh EXCEPT
                     !.cf = IF Ev.o # "U" /\ r.new THEN Freeze(@, Ev.f) ELSE @,
                     !.echo = @ \/ (startup /\ P!IsEchoReply(Ev.rep)),
+                    !.conf = @ \/ (startup /\ ~mh.closed /\ P!IsEchoReply(Ev.rep)),
                     !.link = IF startup THEN @ ELSE P!LinkAppend(@, IF acked THEN "A" ELSE "L"),
                     !.slUsed = @ \/ (~startup /\ P!Bit3(Ev.f[1]) + P!Bit2(Ev.f[1]) # 2),
                     !.nrFalse = @ \/ (~startup /\ Ev.st[5] = 0)]
